@@ -56,7 +56,10 @@ LEVEL_TEXT = ("Lean theorems about a model of create_frames / JplPropagator.prop
               "the difference of the centres' positions, the frame made from the orbit of a body as seen from either end of its segment (a non-Earth centre), whatever frame the orbit had been re-framed to, being centred on that body "
               "(spk_attached_frames, spk_as_frame); in EVERY world - whatever objects the caller holds, however he modified them in place, whatever admissible frames he attached - a "
               "request returns the vector the property states, a function of the kernel and the segment values at its date only (history_independent: the model, like the code, keeps no "
-              "memory between requests); orb.frame = b leaves in orb what orb.copy(frame=b) returns, still the position of its body (inplace_is_copy, object_tracks_body). Sun/Moon: the two series are translated "
+              "memory between requests); orb.frame = b leaves in orb what orb.copy(frame=b) returns, still the position of its body (inplace_is_copy, object_tracks_body). The TDB argument: the "
+              "expression JplPropagator.propagate hands to jplephem is read from the ASTs of propagate / Date.jd / Date.mjd on every run (Generated/JplArg); it is the Julian date of the TDB "
+              "conversion and reads nothing of the caller's date (kernel_arg_is_tdb_jd, kernel_arg_label_free - a mixed expression breaks the build), and on C03's model of Date two "
+              "caller dates of any scales whose TDB conversions denote one instant ask the kernel at one argument (kernel_arg_of_instant). Sun/Moon: the two series are translated "
               "from solarsystem.py on every run; for every T the position is distance x unit vector with the distance inside the range of its series, the velocity "
               "entries are the symmetric difference quotient of the positions, whose distance from the derivative is bounded by h^2/6 sup|f3| (general theorem, "
               "instantiated to the two steps read from the classes). The model is tied to the code by a differential correspondence on all ordered pairs of the real "
@@ -78,6 +81,8 @@ TRUSTED = [
     "harness/py2lean.py: translates SunPropagator._propagate / MoonPropagator._propagate (incl. the local degree-cos/sin) into Generated/SunMoon{F,R}.lean on every run",
     "beyond.dates (UTC -> TDB / UT1, julian_century): the three time arguments of the difference quotient are taken from the real Date objects (C03/C04)",
     "numpy / libm double arithmetic vs R: tolerance 1e-12 (SPK chaining, same operations in the same order) and 1e-10 (series)",
+    "harness/props/C18.py extract_kernel_arg: the reader of the kernel-argument expression (straight-line assignments of JplPropagator.propagate; anything it does not understand is refused and the check fails); own_tdb_jd: the TDB Julian date of an instant from the definitions of the scales and the IERS tables as parsed independently by C03",
+    "C03 (Model/Date.lean, Props C03.changeScale_instant): change_scale keeps the instant to 1.5 us; kernel_arg_of_instant builds on it",
     "harness/props/C18.py chain_direct: the independent 'chain the segments directly' reference used by the oracle (breadth-first walk over the pairs, jplephem values)",
 ]
 ASSUMPTIONS = [
@@ -108,6 +113,10 @@ RULE = ("correspondence: every ordered pair of the 16 bodies of de403_2000-2020.
         "histories: per configuration one exhaustive family (every segment through a hand-made propagator in both directions; the frame made from the orbit of every body against every "
         "body both ways; every body asked twice at one date with an in-place conversion of the first answer in between) and random histories of 36 requests over 1-3 dates, in both the "
         "correspondence (vs the Lean `run`, 1e-11 of the terms summed) and the oracle (vs the segments chained in the harness, 4e-12; 1e-8 after a change of form). "
+        "dates: the two ends of the kernel's span (UTC), then (day, seconds of day, scale) in all six scales, 70 % of the clock readings in the last / first 75 s or 4 ms of the day or at midnight "
+        "(the conversion to TDB crosses midnight), without IERS database (policy pass: zeros; both PCK configurations) and, third configuration, with the one of tests/data/pole (days inside its tables); "
+        "per date of a history the argument seen at the jplephem segments (tap on compute_and_differentiate) vs the Lean kernelArg fed with Date.d/Date.s of the date and of its TDB conversion (bit-exact), "
+        "vs the TDB Julian date computed here from the definitions of the scales (2e-9 d; 4e-8 d for UT1), and every request of the history asks the kernel at that argument only. "
         "oracle: the same calls against chaining the segments directly with jplephem (1e-12 of the summed magnitudes), antisymmetry, TDB argument, bit-identity with/without PCK, "
         "synthetic kernels; Sun/Moon vs DE403 at the property's accuracies, velocity vs derivative of the position within the theorem's bound")
 
